@@ -141,6 +141,10 @@ def random_cases(run, count):
     return out
 
 
+def pending_cases(run, count):
+    return [("split-pending", G.pending_case(run.rng)) for _ in range(count)]
+
+
 def corpus_cases():
     d = os.path.join(vlib.CORPUS, PROP)
     out = []
@@ -231,7 +235,8 @@ def main():
     variant = detect_variant(hbin, run) if have_model else []
     # 4. cases
     t0 = time.time()
-    cases = corpus_cases() + exhaustive_cases(run) + random_cases(run, 3000 if run.quick else 25000)
+    cases = corpus_cases() + exhaustive_cases(run) + random_cases(run, 3000 if run.quick else 25000) \
+        + pending_cases(run, 800 if run.quick else 8000)
     if broken is not None:
         cases += random_cases(run, 30000)         # enlarged search
     lines = [G.case_line(c) for _, c in cases]
@@ -269,7 +274,7 @@ def main():
         run.count(line, nontrivial=edges > 0)
         if il == "TIMEOUT":
             continue
-        for st in re.findall(r"L\d+=([FPRX])", il):
+        for st in re.findall(r"[LPE]\d+=([FPRX])", il):
             stats["impl_states"][st] = stats["impl_states"].get(st, 0) + 1
         # property oracle on the implementation (search)
         fails = O.check(c, il)
